@@ -178,6 +178,7 @@ func ruleC02(c *Ctx) {
 		checkLocationEvaluator(c, gsq, ev)
 	}
 	checkRCShape(c, "TERM-EVAL")
+	checkComplementOracle(c, "TERM-EVAL")
 	// ---------------- printer
 	checkLocationPrinter(c, bl, pl)
 }
